@@ -276,9 +276,11 @@ CHECKS["C09"] = {
 }
 CHECKS["C10"] = {
     "quick": {"tests": [{"test": "TestC10", "checks": 20000, "subchecks": 1},
+                        {"test": "TestC10Deep", "checks": 150, "subchecks": 1},
                         {"test": "TestC10Enum", "checks": 1, "subchecks": 66364}]},
     "thorough": {"shards": 16, "timeout": 3000, "tests": [
         {"test": "TestC10", "checks": 200000, "subchecks": 1},
+        {"test": "TestC10Deep", "checks": 3000, "subchecks": 1},
         {"test": "TestC10Enum", "checks": 1, "subchecks": 1, "nocount": True, "env": {"VERIF_C10_AB": "12", "VERIF_C10_ABC": "7"}, "once": True},
     ]},
     "rule": ("texts of length 0..48 (10%: up to 160) from the C09 families with drawn (minLen, maxLen), sa/lcp computed by "
@@ -449,8 +451,8 @@ for _pid in ("C04", "C06", "C07", "C17", "C18"):
                              "matches of up to 5 MiB (overlapping copies whose doubling passes 1 MiB, offsets beyond 2^16 and 2^20), "
                              "Init again with another geometry, writer faults with megabytes pending; same oracles.")
 
-CHECKS["C13"]["quick"]["tests"].append({"test": "TestC13Enum", "checks": 1, "subchecks": 2363787})
-CHECKS["C13"]["thorough"]["tests"].append({"test": "TestC13Enum", "checks": 1, "subchecks": 9430155, "once": True,
+CHECKS["C13"]["quick"]["tests"].append({"test": "TestC13Enum", "checks": 1, "subchecks": 3337242})
+CHECKS["C13"]["thorough"]["tests"].append({"test": "TestC13Enum", "checks": 1, "subchecks": 10403610, "once": True,
                                            "env": {"VERIF_C13_H1": "8", "VERIF_C13_H2": "10"}})
 CHECKS["C13"]["rule"] += (" (5) small-scope enumeration: for 9 tiny hash parser configurations (few hash bits, small buckets, "
                           "hashes over 3-6 bytes) every pair (H1, H2) of strings over {0x00, 'a'} with |H1| <= 7, |H2| <= 9 "
